@@ -1,15 +1,16 @@
 #!/usr/bin/env python3
-"""tools/fix_sensitivity.py [first_id] -- for every 'fixed' finding (from D29 on by default): revert its fix
+"""tools/fix_sensitivity.py [first_id [last_id]] -- for every 'fixed' finding (from D29 on by default): revert its fix
 commit in /repo's working tree, run the quick tier of the property's check (and of the 'also' properties
 until one reports it), expect exit 1, restore /repo. Results: hunt/SENSITIVITY.json."""
 import json, subprocess, sys, os, re
 first = int(sys.argv[1]) if len(sys.argv) > 1 else 29
+last = int(sys.argv[2]) if len(sys.argv) > 2 else 10**6
 F = json.load(open("/verif/known_findings.json"))["findings"]
 out = []
 def sh(cmd, **kw): return subprocess.run(cmd, shell=True, capture_output=True, text=True, **kw)
 assert sh("git -C /repo status --porcelain").stdout.strip() == "", "/repo not clean"
 for f in F:
-    if f["status"] != "fixed" or int(f["id"][1:]) < first: continue
+    if f["status"] != "fixed" or not (first <= int(f["id"][1:]) <= last): continue
     c = f["commit"]
     sh("git -C /repo show %s > /tmp/fs.diff" % c)
     r = sh("git -C /repo apply -R /tmp/fs.diff")
